@@ -125,7 +125,9 @@ def generated_regexes():
 def regex_tie(out, seed, model_ok):
     """the backtracking matcher of the Lean cost model (driver op `rxmatch`: parse the SOURCE of the regex, run it)
     against CPython's `re` on the regexes the theorems are about: same match or no match, same `match.end()`"""
-    if not model_ok:
+    if not model_ok or out.violations:
+        # (with a failing input already found - e.g. a rule that backtracks exponentially, seen by the timing runs in their
+        # killable worker - matching the same rule in this process and in the driver could itself take forever)
         return
     import warnings
     rng = random.Random(seed * 104729 + 11)
@@ -163,7 +165,15 @@ def regex_tie(out, seed, model_ok):
         for i in range(0, len(member), 200):
             cases.append(("table " + pat, "[" + pat + "]+", "".join(chr(c) for c in member[i:i + 200]) + "x"))
             cases.append(("table " + pat, "[^" + pat + "]*", "xyz" + "".join(chr(c) for c in member[i:i + 200])))
-    res = run_driver([{"op": "rxmatch", "pattern": p, "s": st} for _n, p, st in cases], tag="rx")
+    import common
+    try:
+        res = run_driver([{"op": "rxmatch", "pattern": p, "s": st} for _n, p, st in cases], tag="rx", timeout=90)
+    except common.DriverTimeout:
+        # the model of prioritised backtracking did not get through ~10^4 short strings: one of today's regexes explodes in
+        # the model; CPython's re is NOT asked (it cannot be interrupted in this process)
+        out.correspondence_breaks.append("the Lean backtracking matcher did not finish on the regexes extracted from the source within 90 s "
+                                         "(catastrophic backtracking in the cost model of one of them)")
+        return
     compiled = {}
     unparsed = set()
     bad = 0
